@@ -3,6 +3,7 @@ package rules
 import (
 	"fmt"
 	"go/token"
+	"os"
 	"sort"
 	"strings"
 
@@ -88,80 +89,124 @@ func c10ParamInfluence(c *Ctx) {
 		trail []int
 	}
 	var results []pathRes
-	n := 0
-	var walk func(b *ssa.BasicBlock, deps map[string]bool, seen map[*ssa.BasicBlock]bool, arm string, trail []int)
-	walk = func(b *ssa.BasicBlock, deps map[string]bool, seen map[*ssa.BasicBlock]bool, arm string, trail []int) {
-		if seen[b] || n > 20000 {
-			return
+	// per-path state: which arm, what the passed equality tests depend on, and (inside a
+	// helper) what the helper's parameters stand for in terms of Verify's own values
+	type pst struct {
+		arm   string
+		deps  map[string]bool
+		alias map[string][]string
+	}
+	cp := func(s pst) pst {
+		o := pst{arm: s.arm, deps: map[string]bool{}, alias: map[string][]string{}}
+		for k := range s.deps {
+			o.deps[k] = true
 		}
-		seen[b] = true
-		defer delete(seen, b)
-		trail = append(trail, b.Index)
-		last := b.Instrs[len(b.Instrs)-1]
-		if ret, ok := last.(*ssa.Return); ok {
-			if isNilConst(ret.Results[0]) {
-				n++
-				cp := map[string]bool{}
-				for k := range deps {
-					cp[k] = true
-				}
-				results = append(results, pathRes{arm, cp, append([]int{}, trail...)})
+		for k, v := range s.alias {
+			o.alias[k] = v
+		}
+		return o
+	}
+	depsThrough := func(s pst, v ssa.Value) map[string]bool {
+		d := map[string]bool{}
+		depsOf(v, d, map[ssa.Value]bool{}, 0)
+		out := map[string]bool{}
+		for k := range d {
+			root, rest := k, ""
+			if i := strings.IndexByte(k, '.'); i >= 0 {
+				root, rest = k[:i], k[i:]
 			}
-			return
-		}
-		iff, ok := last.(*ssa.If)
-		if !ok {
-			for _, s := range b.Succs {
-				walk(s, deps, seen, arm, trail)
-			}
-			return
-		}
-		for i, s := range b.Succs {
-			nd := deps
-			narm := arm
-			// an equality-type test passed on its "equal / true" edge contributes its dependencies
-			passing := false
-			switch x := iff.Cond.(type) {
-			case *ssa.BinOp:
-				if x.Op == token.EQL && i == 0 || x.Op == token.NEQ && i == 1 {
-					passing = true
+			if al, ok := s.alias[root]; ok {
+				for _, a := range al {
+					out[a+rest] = true
 				}
-				// which arm: auth.Method == Digest(1) / Basic(0)
-				d := map[string]bool{}
-				depsOf(x, d, map[ssa.Value]bool{}, 0)
-				if d["auth.Method"] && passing {
-					if k, ok := x.Y.(*ssa.Const); ok && k.Value != nil {
-						if k.Value.ExactString() == "1" {
-							narm = "digest"
-						} else {
-							narm = "basic"
-						}
+				continue
+			}
+			out[k] = true
+		}
+		return out
+	}
+	ex := &pathExplorer{budget: 200000}
+	ex.inline = func(h *ssa.Function) bool {
+		if h.Pkg != fn.Pkg {
+			return false
+		}
+		// not the leaves that only compute (hash helpers, URL matching): their result is compared by the caller
+		for _, b := range h.Blocks {
+			for _, in := range b.Instrs {
+				if ci, ok := in.(ssa.CallInstruction); ok {
+					if f := ci.Common().StaticCallee(); f != nil && f.Pkg != nil && strings.HasPrefix(f.Pkg.Pkg.Path(), "crypto/") {
+						return false
 					}
 				}
-			case *ssa.Call:
-				if i == 0 {
-					passing = true
-				}
-			case *ssa.UnOp:
-				if x.Op == token.NOT && i == 1 {
-					passing = true
-				}
 			}
-			if passing {
-				d := map[string]bool{}
-				depsOf(iff.Cond, d, map[ssa.Value]bool{}, 0)
-				nd = map[string]bool{}
-				for k := range deps {
-					nd[k] = true
-				}
-				for k := range d {
-					nd[k] = true
-				}
-			}
-			walk(s, nd, seen, narm, trail)
 		}
+		return h.Name() != "urlMatches" && !isFn(h, "pkg/auth", "urlMatches")
 	}
-	walk(fn.Blocks[0], map[string]bool{}, map[*ssa.BasicBlock]bool{}, "", nil)
+	ex.onInline = func(st any, call *ssa.Call, h *ssa.Function) any {
+		s := cp(st.(pst))
+		for i, prm := range h.Params {
+			if i < len(call.Call.Args) {
+				var names []string
+				for k := range depsThrough(st.(pst), call.Call.Args[i]) {
+					names = append(names, k)
+				}
+				if al, ok := call.Call.Args[i].(*ssa.Alloc); ok && al.Comment != "" {
+					names = []string{al.Comment} // the address of a named local: the local itself
+				}
+				sort.Strings(names)
+				if len(names) > 0 {
+					s.alias[prm.Name()] = names
+				} else {
+					delete(s.alias, prm.Name())
+				}
+			}
+		}
+		return s
+	}
+	ex.onCond = func(st any, cond ssa.Value, pol bool) (any, bool) {
+		s := st.(pst)
+		passing := false
+		switch x := cond.(type) {
+		case *ssa.BinOp:
+			if x.Op == token.EQL && pol || x.Op == token.NEQ && !pol {
+				passing = true
+			}
+			d := depsThrough(s, x)
+			if d["auth.Method"] && passing {
+				if k, ok := x.Y.(*ssa.Const); ok && k.Value != nil {
+					s = cp(s)
+					if k.Value.ExactString() == "1" {
+						s.arm = "digest"
+					} else {
+						s.arm = "basic"
+					}
+				}
+			}
+		case *ssa.Call:
+			passing = pol
+		}
+		if passing {
+			s = cp(s)
+			for k := range depsThrough(s, cond) {
+				s.deps[k] = true
+			}
+		}
+		return s, true
+	}
+	ex.run(fn, pst{deps: map[string]bool{}, alias: map[string][]string{}}, func(st any, res []ssa.Value) {
+		s := st.(pst)
+		if len(res) == 1 && isNilConst(res[0]) {
+			results = append(results, pathRes{s.arm, s.deps, nil})
+			if os.Getenv("VERIF_DEBUG_C10") != "" {
+				var ks []string
+				for k := range s.deps {
+					ks = append(ks, k)
+				}
+				sort.Strings(ks)
+				fmt.Println("ACCEPT", s.arm, ks)
+			}
+		}
+	})
 	want := map[string][]string{
 		"digest": {"nonce", "realm", "user", "pass", "req.Method", "req.URL", "methods", "auth.Nonce", "auth.Realm", "auth.Username", "auth.URI", "auth.Response"},
 		"basic":  {"user", "pass", "methods", "auth.Username", "auth.BasicPass"},
@@ -448,8 +493,7 @@ func c10MethodGate(c *Ctx) {
 		return
 	}
 	// hash helpers of pkg/auth, classified by the crypto package they reach
-	hashOf := func(call *ssa.Call) string {
-		cal := call.Call.StaticCallee()
+	hashOfFn := func(cal *ssa.Function) string {
 		if cal == nil || cal.Blocks == nil {
 			return ""
 		}
@@ -469,6 +513,7 @@ func c10MethodGate(c *Ctx) {
 		}
 		return ""
 	}
+	hashOf := func(call *ssa.Call) string { return hashOfFn(call.Call.StaticCallee()) }
 	type facts struct {
 		enabled map[string]bool
 		algNil  int // 0 unknown, 1 nil, 2 non-nil
@@ -494,104 +539,86 @@ func c10MethodGate(c *Ctx) {
 	}
 	nAccept, nBad := 0, 0
 	firstBad := ""
-	budget := 50000
-	var walk func(b *ssa.BasicBlock, f facts, on map[*ssa.BasicBlock]bool)
-	walk = func(b *ssa.BasicBlock, f facts, on map[*ssa.BasicBlock]bool) {
-		if on[b] || budget <= 0 {
-			return
-		}
-		budget--
-		on[b] = true
-		defer delete(on, b)
-		for _, in := range b.Instrs {
-			if call, ok := in.(*ssa.Call); ok {
-				if m := hashOf(call); m != "" {
-					if _, had := f.used[m]; !had {
-						f = clone(f)
-						f.used[m] = p.Pos(call.Pos())
-					}
-				}
-			}
-			if bo, ok := in.(*ssa.BinOp); ok && (bo.Op == token.EQL || bo.Op == token.NEQ) {
-				if strings.HasSuffix(core.PathOf(bo.X), ".BasicPass") || strings.HasSuffix(core.PathOf(bo.Y), ".BasicPass") {
-					f = clone(f)
-					f.used["VerifyMethodBasic"] = p.Pos(bo.Pos())
-				}
-			}
-		}
-		last := b.Instrs[len(b.Instrs)-1]
-		if ret, ok := last.(*ssa.Return); ok {
-			if isNilConst(ret.Results[0]) {
-				nAccept++
-				for m, at := range f.used {
-					if !f.enabled[consts[m]] {
-						nBad++
-						if firstBad == "" {
-							firstBad = fmt.Sprintf("a path accepts after evaluating the %s scheme (at %s) without having found %s among the enabled methods", strings.TrimPrefix(m, "VerifyMethod"), at, m)
-						}
-					}
-				}
-			}
-			return
-		}
-		iff, ok := last.(*ssa.If)
-		if !ok {
-			for _, s := range b.Succs {
-				walk(s, f, on)
-			}
-			return
-		}
-		for i, s := range b.Succs {
-			nf := clone(f)
-			feasible := true
-			cond, pol := iff.Cond, i == 0
-			if u, ok := cond.(*ssa.UnOp); ok && u.Op == token.NOT {
-				cond, pol = u.X, !pol
-			}
-			switch x := cond.(type) {
-			case *ssa.Call:
-				if cal := x.Call.StaticCallee(); cal != nil && strings.HasPrefix(cal.Name(), "Contains") && len(x.Call.Args) == 2 {
-					if k, ok := x.Call.Args[1].(*ssa.Const); ok && k.Value != nil && pol {
-						nf.enabled[k.Value.ExactString()] = true
-					}
-				}
-			case *ssa.BinOp:
-				if x.Op == token.EQL || x.Op == token.NEQ {
-					eq := (x.Op == token.EQL) == pol
-					if isNilConst(x.Y) && isAlgPtr(x.X) {
-						want := 2
-						if eq {
-							want = 1
-						}
-						if nf.algNil != 0 && nf.algNil != want {
-							feasible = false
-						}
-						nf.algNil = want
-					} else if k, ok := x.Y.(*ssa.Const); ok && k.Value != nil {
-						if ld, ok := x.X.(*ssa.UnOp); ok && ld.Op == token.MUL && isAlgPtr(ld.X) {
-							key := k.Value.ExactString()
-							if eq {
-								if nf.algNil == 1 || nf.algNot[key] || (nf.algIs != "" && nf.algIs != key) {
-									feasible = false
-								}
-								nf.algIs = key
-								nf.algNil = 2
-							} else {
-								if nf.algIs == key {
-									feasible = false
-								}
-								nf.algNot[key] = true
-							}
-						}
-					}
-				}
-			}
-			if feasible {
-				walk(s, nf, on)
-			}
-		}
+	ex := &pathExplorer{budget: 200000}
+	ex.inline = func(h *ssa.Function) bool {
+		return h.Pkg == fn.Pkg && hashOfFn(h) == "" // helpers of pkg/auth, except the hash helpers themselves
 	}
-	walk(fn.Blocks[0], facts{enabled: map[string]bool{}, algNot: map[string]bool{}, used: map[string]string{}}, map[*ssa.BasicBlock]bool{})
+	ex.onInstr = func(st any, in ssa.Instruction) any {
+		f := st.(facts)
+		if call, ok := in.(*ssa.Call); ok {
+			if m := hashOf(call); m != "" {
+				if _, had := f.used[m]; !had {
+					f = clone(f)
+					f.used[m] = p.Pos(call.Pos())
+				}
+			}
+		}
+		if bo, ok := in.(*ssa.BinOp); ok && (bo.Op == token.EQL || bo.Op == token.NEQ) {
+			if strings.HasSuffix(core.PathOf(bo.X), ".BasicPass") || strings.HasSuffix(core.PathOf(bo.Y), ".BasicPass") {
+				f = clone(f)
+				f.used["VerifyMethodBasic"] = p.Pos(bo.Pos())
+			}
+		}
+		return f
+	}
+	ex.onCond = func(st any, cond ssa.Value, pol bool) (any, bool) {
+		nf := clone(st.(facts))
+		switch x := cond.(type) {
+		case *ssa.Call:
+			if cal := x.Call.StaticCallee(); cal != nil && strings.HasPrefix(cal.Name(), "Contains") && len(x.Call.Args) == 2 {
+				if k, ok := x.Call.Args[1].(*ssa.Const); ok && k.Value != nil && pol {
+					nf.enabled[k.Value.ExactString()] = true
+				}
+			}
+		case *ssa.BinOp:
+			if x.Op == token.EQL || x.Op == token.NEQ {
+				eq := (x.Op == token.EQL) == pol
+				if isNilConst(x.Y) && isAlgPtr(x.X) {
+					want := 2
+					if eq {
+						want = 1
+					}
+					if nf.algNil != 0 && nf.algNil != want {
+						return nf, false
+					}
+					nf.algNil = want
+				} else if k, ok := x.Y.(*ssa.Const); ok && k.Value != nil {
+					if ld, ok := x.X.(*ssa.UnOp); ok && ld.Op == token.MUL && isAlgPtr(ld.X) {
+						key := k.Value.ExactString()
+						if eq {
+							if nf.algNil == 1 || nf.algNot[key] || (nf.algIs != "" && nf.algIs != key) {
+								return nf, false
+							}
+							nf.algIs = key
+							nf.algNil = 2
+						} else {
+							if nf.algIs == key {
+								return nf, false
+							}
+							nf.algNot[key] = true
+						}
+					}
+				}
+			}
+		}
+		return nf, true
+	}
+	ex.run(fn, facts{enabled: map[string]bool{}, algNot: map[string]bool{}, used: map[string]string{}}, func(st any, res []ssa.Value) {
+		f := st.(facts)
+		if len(res) != 1 || !isNilConst(res[0]) {
+			return
+		}
+		nAccept++
+		for m, at := range f.used {
+			if !f.enabled[consts[m]] {
+				nBad++
+				if firstBad == "" {
+					firstBad = fmt.Sprintf("a path accepts after evaluating the %s scheme (at %s) without having found %s among the enabled methods", strings.TrimPrefix(m, "VerifyMethod"), at, m)
+				}
+			}
+		}
+	})
+	budget := ex.budget
 	if budget <= 0 {
 		r.Fail("C10/METHOD-GATE", "auth.Verify accepting paths", p.Pos(fn.Pos()), "too many paths to enumerate")
 		return
